@@ -208,6 +208,22 @@ def grammars(quick: bool):
                     yield f'entry := {a}\nr2 := {b}\nr3[1] := {c}\n' + base_rule
 
 
+def wide_grammars():
+    """Rules whose one-line form is wide (80 .. 700 columns): many alternatives / items with long names, as in real grammars
+    (the statement and atom rules of py_gram.lark are 90+ columns wide)."""
+    for k in (3, 6, 10, 14, 24):
+        names = [f'statement_kind_{i:02d}' for i in range(k)]
+        defs = ''.join(f'{n} := "{chr(97 + i % 26)}{i}"\n' for i, n in enumerate(names))
+        for u in ('', '[1]'):
+            yield f'entry{u} := ' + ' | '.join(names) + '\n' + defs
+            yield f'entry{u} := ' + ' '.join(names) + '\n' + defs
+            yield f'entry{u} := ' + ' | '.join(f'{a} {b}' for a, b in zip(names, names[1:] + names[:1])) + '\n' + defs
+            yield f'entry{u} := (' + ' | '.join(names) + ')* ' + names[0] + '\n' + defs
+            yield f'entry{u} := [' + ' | '.join(names) + '] ' + names[-1] + '\n' + defs
+            yield f'entry{u} := ' + ' | '.join(f'"{n}"' for n in names) + '\n' + defs
+            yield f'entry{u} := ' + ' | '.join(f'/{n}[0-9]+/' for n in names) + '\n' + defs
+
+
 def shape_class(text: str) -> str:
     import re
     rhs = text.split('\n')[0].split(':=', 1)[1]
@@ -376,7 +392,7 @@ def run(ctx):
     n_fixed += compiled_rules_equivalence(ctx, before)
     gs = []
     seen = set()
-    for g in grammars(ctx.quick):
+    for g in itertools.chain(grammars(ctx.quick), wide_grammars()):
         if g not in seen:
             seen.add(g)
             gs.append(g)
